@@ -34,17 +34,18 @@ def dec_lit(n):
 class Probe:
     """expr_lit: expression text with literal operands; rt: (argtypes, expr_rt) with x0,x1,.. ; args: values;
     ret: return type name; form/T/ops: metadata for the model correspondence."""
-    __slots__ = ("form", "T", "ops", "expr_lit", "argtypes", "expr_rt", "args", "ret", "lit_res", "rt_res", "pre")
+    __slots__ = ("form", "T", "ops", "expr_lit", "argtypes", "expr_rt", "args", "ret", "lit_res", "rt_res", "pre", "libpre")
 
-    def __init__(self, form, T, ops, expr_lit, argtypes, expr_rt, args, ret, pre=""):
+    def __init__(self, form, T, ops, expr_lit, argtypes, expr_rt, args, ret, pre="", libpre=""):
         self.form, self.T, self.ops = form, T, tuple(ops)
         self.expr_lit, self.argtypes, self.expr_rt, self.args, self.ret = expr_lit, tuple(argtypes), expr_rt, tuple(args), ret
         self.lit_res = {}   # cfg name -> REJECT | bytes
         self.rt_res = {}    # cfg name -> REJECT | "revert" | bytes
-        self.pre = pre
+        self.pre = pre          # module-level declarations of the literal side ({i} = unique suffix)
+        self.libpre = libpre    # declarations placed in the imported module lib1.vy
 
     def ident(self):
-        return {"form": self.form, "type": self.ret, "literal_side": self.expr_lit,
+        return {"form": self.form, "type": self.ret, "literal_side": self.expr_lit, "declarations": self.pre, "lib1.vy": self.libpre,
                 "runtime_side": f"def f({', '.join(f'x{i}: {t}' for i, t in enumerate(self.argtypes))}) -> {self.ret}: return {self.expr_rt}",
                 "args": [str(a) for a in self.args]}
 
@@ -54,7 +55,26 @@ def _fn(name, args, ret, expr):
 
 
 def lit_src(probes, start=0):
-    return "\n".join(_fn(f"L{start + i}", "", p.ret, p.expr_lit) for i, p in enumerate(probes))
+    """returns (main source, lib1 source or None)"""
+    head, lib, fns = [], [], []
+    for i, p in enumerate(probes):
+        e = p.expr_lit
+        if p.pre or p.libpre:
+            e = e.replace("{i}", str(i))
+            head.append(p.pre.replace("{i}", str(i)))
+            if p.libpre:
+                lib.append(p.libpre.replace("{i}", str(i)))
+        fns.append(_fn(f"L{start + i}", "", p.ret, e))
+    main = ("import lib1\n" if lib else "") + "\n".join(head) + "\n" + "\n".join(fns)
+    return main, ("\n".join(lib) + "\n" if lib else None)
+
+
+def _bundle(lib):
+    if lib is None:
+        return None
+    from pathlib import PurePath
+    from vyper.compiler.input_bundle import JSONInputBundle
+    return JSONInputBundle({PurePath("lib1.vy"): {"content": lib}}, search_paths=[PurePath(".")])
 
 
 def _selector(sig):
@@ -62,24 +82,24 @@ def _selector(sig):
     return method_id_int(sig).to_bytes(4, "big")
 
 
-def frontend_accepts(src, cfg):
+def frontend_accepts(src, cfg, lib=None):
     """True if the real front end (parse, fold, type-check) accepts; the exception name otherwise."""
     from vyper.exceptions import VyperException
     with warnings.catch_warnings():
         warnings.simplefilter("ignore")
         try:
-            compile_src(src, cfg, formats=("abi",))
+            compile_src(src, cfg, formats=("abi",), input_bundle=_bundle(lib))
             return True
         except Exception as e:  # incl. compiler crashes: the program is not accepted
             return type(e).__name__
 
 
-def full_compile(src, cfg):
+def full_compile(src, cfg, lib=None):
     from vyper.exceptions import VyperException
     with warnings.catch_warnings():
         warnings.simplefilter("ignore")
         try:
-            return compile_src(src, cfg, formats=("bytecode",))["bytecode"]
+            return compile_src(src, cfg, formats=("bytecode",), input_bundle=_bundle(lib))["bytecode"]
         except Exception as e:
             return e
 
@@ -95,7 +115,8 @@ def run_literal_side(probes, cfgs_for_batch, front_cfg, batch=40, stats=None):
     accepted ones in batches under the given configurations and calls them."""
     accepted = []
     for p in probes:
-        r = frontend_accepts(_fn("L0", "", p.ret, p.expr_lit), front_cfg)
+        m_src, l_src = lit_src([p])
+        r = frontend_accepts(m_src, front_cfg, l_src)
         if r is True:
             accepted.append(p)
         else:
@@ -112,7 +133,8 @@ def run_literal_side(probes, cfgs_for_batch, front_cfg, batch=40, stats=None):
 
 
 def _run_lit_chunk(chunk, cfg, stats):
-    code = full_compile(lit_src(chunk), cfg)
+    m_src, l_src = lit_src(chunk)
+    code = full_compile(m_src, cfg, l_src)
     if stats is not None:
         stats["compiles"] = stats.get("compiles", 0) + 1
     if isinstance(code, Exception):
